@@ -43,6 +43,7 @@ def plan(tier, seed):
             specs.append({"kind": "invoke", "legacy": legacy, "part": i, "of": n, "arity": 2 if tier == "quick" else 3})
     specs.append({"kind": "firstuse", "legacy": True})
     specs.append({"kind": "firstuse", "legacy": False})
+    specs.append({"kind": "cli"})
     if tier == "thorough":
         specs.append({"kind": "strace"})
     return specs
@@ -533,6 +534,43 @@ def run_strace(ctx, canary, moddir):
     ctx.sample({"strace_scripts": len(scripts)})
 
 
+def run_cli(ctx, canary, moddir):
+    """the command-line hosts with their secure switch in every spelling and position: the canary tree stays as it was and
+    every attempt is refused (each child is a fresh process; no tracer, so this also runs on every change)"""
+    work = os.getcwd()
+    body = "def refused = 0;\n" + "\n".join("do do %s end; println('NOT REFUSED: attempt %d') catch all refused += 1 end;" % (att, i) for i, att in enumerate(attempts(canary)))
+    body += "\nprintln('refused ' + string(refused));\n"
+    script = os.path.join(work, "cli_attempts.ckl")
+    with open(script, "w") as f:
+        f.write(body)
+    n = len(attempts(canary))
+    flagsets = [["-s"], ["--secure"], ["-s", "-l"], ["-l", "-s"], ["--secure", "--legacy"], ["-s", "-m", moddir], ["-m", moddir, "-s"], ["-sl"], ["-ls"], ["-l", "--secure", "-m", moddir]]
+    before = snapshot(canary)
+    for host in ("ckl.run", "ckl.repl"):
+        for flags in flagsets:
+            cmd = [sys.executable, "-B", "-m", host] + flags + [script]
+            try:
+                p = subprocess.run(cmd, capture_output=True, text=True, timeout=120, input="exit\n", env=dict(os.environ), cwd=work)
+            except subprocess.TimeoutExpired:
+                ctx.note("secure CLI child did not end: %s" % " ".join(cmd))
+                ctx.count("cli_child_incomplete")
+                continue
+            ctx.count("cli_runs")
+            ctx.case(("cli", host, tuple(flags)), nontrivial=True)
+            out = p.stdout + p.stderr
+            now = snapshot(canary)
+            if now != before:
+                ctx.violation("C09:cli:canary-changed:%s" % host, "%s: the canary tree changed" % " ".join(cmd[3:]), {"cmd": cmd[3:]})
+                before = now
+            if "NOT REFUSED" in out:
+                ctx.violation("C09:cli:attempt-not-refused:%s" % host, "%s: %s" % (" ".join(cmd[3:]), [l for l in out.splitlines() if "NOT REFUSED" in l][:3]), {"cmd": cmd[3:]})
+            elif ("refused %d" % n) in out:
+                ctx.count("cli_scripts_completed")
+            else:
+                ctx.note("secure CLI child neither finished nor reported: %s -> %s" % (" ".join(cmd[3:]), out[-300:]))
+                ctx.count("cli_child_incomplete")
+
+
 def run_shard(spec, ctx):
     work = os.getcwd()
     canary = make_canary(os.path.join(work, "canary"))
@@ -550,6 +588,9 @@ def run_shard(spec, ctx):
         return
     if kind == "strace":
         run_strace(ctx, canary, moddir)
+        return
+    if kind == "cli":
+        run_cli(ctx, canary, moddir)
         return
     if kind == "firstuse":
         # nothing else has run in this process yet: what host libraries do once per process (and cache) happens now,
@@ -600,4 +641,6 @@ def finalize(merged, tier):
     if tier == "thorough":
         if c.get("strace_runs", 0) == 0 or c.get("strace_unavailable", 0) or c.get("strace_child_incomplete", 0) or c.get("strace_scripts_completed", 0) < 10:
             reasons.append("strace cross-check did not complete")
+    if c.get("cli_runs", 0) == 0 or c.get("cli_child_incomplete", 0) or c.get("cli_scripts_completed", 0) < c.get("cli_runs", 0):
+        reasons.append("secure command-line runs did not all complete (%d of %d)" % (c.get("cli_scripts_completed", 0), c.get("cli_runs", 0)))
     return extra, reasons
